@@ -11,7 +11,7 @@ import hashlib, json, os, shutil, subprocess, sys, time, glob, fcntl
 
 VERIF = os.path.dirname(os.path.dirname(os.path.abspath(__file__)))
 REPO = os.environ.get("GX_REPO", "/repo")
-CACHE = os.path.join(VERIF, ".cache")
+CACHE = os.environ.get("GX_CACHE", os.path.join(VERIF, ".cache"))
 DRIVER_DIR = os.path.join(VERIF, "driver")
 DRIVER = os.path.join(DRIVER_DIR, "target", "release", "gxmir")
 
